@@ -17,6 +17,17 @@ CHECKS = {
         design_ref='DESIGN.md section 2, C16',
         note='Trusted: mc/ref/wild.py (40 lines of set semantics), the partition argument for the 10 name classes. '
              'Not covered: ##definedSibling, namespaces lists longer than the 4-token pool, processContents interplay.'),
+    'C15': dict(
+        technique='exhaustive enumeration of content-model trees up to a node/deviation bound; Glushkov position-automaton reference; every model built by the real constructor',
+        text='Model checking by bounded exhaustive enumeration: every content-model tree with up to 4 nodes over 8 occurrence '
+             'ranges, 5 nodes with <= 3 (5 ranges) / <= 2 (8 ranges) non-default ranges, 6 nodes with <= 1, canonical up to leaf '
+             'renaming, plus every single-leaf replacement by an EDC-typed leaf, 4 wildcards, substitution heads and member refs, for '
+             'both processors. Each model is built by the real schema constructor (lax packed + strict re-check) and the verdict is '
+             'compared with an independent position automaton (occurrence ranges unrolled, conflicts only between different particles).',
+        design_ref='DESIGN.md section 2, C15',
+        note='Trusted: mc/ref/glushkov.py (170 lines), the 9-symbol partition of names for wildcard overlap. Nothing is claimed beyond the '
+             'enumerated bound. ~12.9k models on which the library heuristics (models.py distinguishable_paths/check_model) disagree with '
+             'UPA are listed per model in known_findings.jsonl.'),
 }
 
 PENDING_REASON = 'check not built yet in this session; the design (DESIGN.md section 2) applies bounded exhaustive exploration to it'
